@@ -335,6 +335,27 @@ ParamListCases ==
         [i \in 1..Len(ParamLists) |->
             Case("ecl", v, "item", ParamDefect(ParamLists[i]), "last", "-", FileWithItem(v, "last", ParamDefect(ParamLists[i]).t))]])
 
+(* literal spellings: every form the lexer has a token for (decimal / hex / binary ints, floats with and without
+   fraction and `f` suffix, the radian form `rad(..)` with every combination of sign, fraction and suffix, INF/NAN/PI,
+   strings with escapes), well- and ill-typed for its slot -- in an assignment, a call argument, a float variable and a
+   const initialiser *)
+LiteralSpellings == <<
+    "0", "7", "2147483647", "4294967295", "0x10", "0XfF", "0xFFFFFFFF", "0b101", "0B11", "00012",
+    "1.5", "1.", ".5", "1.5f", "1.f", "2f", "1e5", "1.5e-3", "0.0", "-0.0",
+    "rad(90)", "rad(90f)", "rad(1.5)", "rad(1.5f)", "rad(1.f)", "rad(1.)", "rad(-45)", "rad(-45f)", "rad(+3)", "rad(+3.25f)", "rad(0f)",
+    "INF", "NAN", "PI", "true", "false",
+    "\"\"", "\"a\\n\\t\\0\\\\\\\"b\"", "\"\\x41\"", "\"\\u3042\"", "\"unterminated"
+>>
+LiteralSlots == <<"rhs", "arg", "const-init">>
+LiteralCases(f) ==
+    LET v == Voc(f) IN
+    FlattenSeq([i \in 1..Len(LiteralSpellings) |->
+        [j \in 1..(Len(LiteralSlots) + 1) |->
+            LET d == [n |-> "literal:" \o LiteralSpellings[i], t |-> <<LiteralSpellings[i]>>] IN
+            IF j <= Len(LiteralSlots)
+            THEN Case(f, v, "expr", d, "top", LiteralSlots[j], File(v, Slot(LiteralSlots[j], d.t, v)))
+            ELSE Case(f, v, "expr", d, "top", "float-rhs", File(v, <<v.F, "=">> \o d.t \o <<";">>))]])
+
 (* mission.msg: only `entry' metas and consts; the expression defects go into meta fields *)
 MissionVoc == [tool |-> "trumsg-mission", game |-> "th095", V |-> "$REG[0]", W |-> "$REG[1]", F |-> "%REG[2]",
                call0 |-> "ins_0", call1 |-> "ins_1", item2 |-> <<"script", "s0", "{", "}">>,
@@ -579,6 +600,7 @@ AllCases ==
         EveryKth(StmtCases(f), Stride(f, "stmt")) \o EveryKth(ExprCases(f), Stride(f, "expr"))
         \o EveryKth(ItemCases(f), Stride(f, "item"))])
     \o MissionCases \o TemplateCases \o MapCases \o EveryKth(ParamListCases, IF Quick THEN 1 ELSE 1)
+    \o FlattenSeq([i \in 1..Len(ScriptFormats) |-> LiteralCases(ScriptFormats[i])])
 
 \* built once, parked in a register (see BUILDING.md: definitions are re-evaluated at every use)
 ASSUME TLCSet(63, <<>> \o AllCases)
